@@ -167,13 +167,39 @@ fn main() {
 	if let Some(p) = &replay {
 		cmd.arg("--replay").arg(p);
 	}
-	let status = cmd.status().expect("spawn child");
-	if let Some(code) = status.code() {
-		std::process::exit(code);
+	// Watchdog: a check that does not come back is a machinery failure, except where the property
+	// itself demands termination (then the units in flight are reported as a violation).
+	let limit_s: u64 = std::env::var("VERIF_WATCHDOG_S")
+		.ok()
+		.and_then(|s| s.parse().ok())
+		.unwrap_or(if tier.thorough() { 6 * 3600 } else { 1500 });
+	let mut child_proc = cmd.spawn().expect("spawn child");
+	let started = std::time::Instant::now();
+	let mut timed_out = false;
+	let status = loop {
+		match child_proc.try_wait().expect("wait for child") {
+			Some(st) => break st,
+			None => {
+				if started.elapsed().as_secs() > limit_s {
+					timed_out = true;
+					let _ = child_proc.kill();
+					break child_proc.wait().expect("wait for killed child");
+				}
+				std::thread::sleep(std::time::Duration::from_millis(50));
+			},
+		}
+	};
+	if !timed_out {
+		if let Some(code) = status.code() {
+			std::process::exit(code);
+		}
 	}
-	// killed by a signal
+	// killed by a signal (or by the watchdog)
 	use std::os::unix::process::ExitStatusExt;
-	let sig = status.signal().unwrap_or(0);
+	let sig = if timed_out { 0 } else { status.signal().unwrap_or(0) };
+	if timed_out {
+		eprintln!("[{}] watchdog: no result after {} s", id, limit_s);
+	}
 	let mut units = vec![];
 	if let Ok(rd) = std::fs::read_dir(format!("{}/target/hb/{}", verif_root(), id)) {
 		for e in rd.flatten() {
@@ -187,12 +213,12 @@ fn main() {
 	if DEATH_IS_VIOLATION.contains(&id.as_str()) && replay.is_none() {
 		let body = serde_json::json!({
 			"property": id, "sub": format!("{}.death", id), "key": format!("{}|process-death", id),
-			"detail": format!("checking process died with signal {}", sig),
+			"detail": if timed_out { format!("the check did not terminate within {} s (a decode that does not return)", limit_s) } else { format!("checking process died with signal {}", sig) },
 			"case": {"sub": format!("{}.death", id), "units_in_flight": units, "tier": tier.name()},
 		});
 		let dir = format!("{}/replays/{}", verif_root(), id);
 		let _ = std::fs::create_dir_all(&dir);
-		let path = format!("{}/death-signal-{}.json", dir, sig);
+		let path = if timed_out { format!("{}/no-termination.json", dir) } else { format!("{}/death-signal-{}.json", dir, sig) };
 		let _ = std::fs::write(&path, serde_json::to_string_pretty(&body).unwrap());
 		println!("VIOLATION property={} replay={}", id, path);
 		std::process::exit(1);
